@@ -170,7 +170,9 @@ class F:
         seen = set()
 
         def rec(f):
-            if f.kind in ("sym", "leaf"):
+            # an opaque leaf stands for an arbitrary formula over the signature: it
+            # contributes no *named* variable of its own
+            if f.kind == "sym":
                 if f.name not in seen:
                     seen.add(f.name)
                     out.append(f)
